@@ -27,6 +27,10 @@ CHECKS["C05"] = dict(cat="model_checking", ref="DESIGN.md 4/C05",
     text="The same step harness restricted to requests the reference model rejects: exception code in the spec's decision order (03 before 02), fc|0x80, all four tables unchanged; quantity limits decided over the full 16-bit quantity and address range against 2100-cell tables; every unassigned function code 1..127 answered with exception 01.",
     note="Bounds as C04; 'datastore failure -> exception 04' is decided with the server front-ends (C09/C12 harnesses). Three listed known findings carve their exact regions (coil value word, coil quantity vs data, short register data).",
     technique=TECH)
+CHECKS["C14"] = dict(cat="model_checking", ref="DESIGN.md 4/C14",
+    text="get_response_pdu_size() of every request class is proved equal to its closed form over unbounded integers (AST->z3 Int translation); the client's read sizes are decided by symbolically executing whole client transactions (real transaction manager, framer, decoder) against a scripted transport holding exactly the frame the real server code sends plus a sentinel: the call returns the decoded reply and leaves exactly the sentinel unread, for normal and exception replies, on RTU/ASCII/binary/TLS/TCP.",
+    note="Quantities are concrete per obligation (quick 1,2,8,9; thorough adds byte-boundary quantities and the spec maxima); unit id and values symbolic; address is one in-range and one out-of-range value. Scripted transport = environment. TLS exception replies are a listed known finding; binary frames with delimiter bytes are C03's.",
+    technique=TECH)
 NA_REASON = "check not built yet in this revision (work in progress; see DESIGN.md build order)"
 
 def main():
